@@ -573,6 +573,21 @@ impl St {
                     ok = false;
                 }
             }
+            "CloneMany" => {
+                // n short-lived clones of handle h (created and dropped again): a client handle may be cloned any number of
+                // times over the life of a connection
+                let h = step.get("h").and_then(|v| v.as_u64()).unwrap_or(0);
+                let n = step.get("n").and_then(|v| v.as_u64()).unwrap_or(1);
+                if let Some(ch) = self.handles.get(&h) {
+                    let _g = self.clock.rt.enter();
+                    for _ in 0..n {
+                        drop(ch.clone());
+                    }
+                    emit("Handles", json!({"what": "clonemany", "h": h, "n": n, "left": self.handles.len()}));
+                } else {
+                    ok = false;
+                }
+            }
             "HandleDrop" => {
                 let h = step.get("h").and_then(|v| v.as_u64()).unwrap_or(0);
                 if let Some(ch) = self.handles.remove(&h) {
